@@ -364,6 +364,7 @@ def check_c17(v: Verdict, n_classes):
     inherit_battery(v, rng, max(4, n_classes // 3), hist)
     pep696_battery(v, hist)
     pep696_chain_battery(v, hist)
+    self_nesting_battery(v, hist)
     bad = []
     shard = 300
     for k in range(0, len(cases), shard):
@@ -520,3 +521,125 @@ def pep696_chain_battery(v: Verdict, hist):
             finally:
                 sys.modules.pop(modname, None)
     hist["pep696_chain_cases"] = n
+
+
+# ------------------------------------------------------------------------------------ a generic class parametrised with itself
+
+def self_nesting_battery(v: Verdict, hist):
+    """"nested generics" where the argument is another parametrisation of the SAME generic class: G[G[X]], G[List[G[X]]],
+    G[Dict[str, G[X]]], G[Optional[G[X]]], G[Tuple[G[X], int]], G[G[G[X]]] -- for generic attrs classes, dataclasses and TypedDicts, both
+    validation modes, both directions, on a cold converter (the outer parametrisation is the first thing it sees) and on a warm one
+    (the inner parametrisation was used before).  G[X] inside G[G[X]] is a different type, not a reference cycle.  Compared with the
+    hand-substituted non-generic copies (one class per parametrisation)."""
+    import enum
+    from typing import TypedDict, Union
+
+    class SK(enum.Enum):
+        A = "a"
+        B = "b"
+
+    @attrs.define
+    class GA(Generic[T]):
+        item: T
+        n: int = 0
+
+    @dataclasses.dataclass
+    class GD(Generic[T]):
+        item: T
+        n: int = 0
+
+    class GT(TypedDict, Generic[T]):
+        item: T
+        n: int
+    counter = [0]
+
+    def clone_of(G, mono_arg):
+        counter[0] += 1
+        name = f"SelfNestClone{counter[0]}"
+        if G is GA:
+            return attrs.make_class(name, {"item": attrs.field(type=mono_arg), "n": attrs.field(type=int, default=0)})
+        if G is GD:
+            return dataclasses.make_dataclass(name, [("item", mono_arg), ("n", int, dataclasses.field(default=0))])
+        return TypedDict(name, {"item": mono_arg, "n": int})
+
+    def mono(t):
+        o = typing.get_origin(t)
+        if o in (GA, GD, GT):
+            return clone_of(o, mono(typing.get_args(t)[0]))
+        if o is list:
+            return List[mono(typing.get_args(t)[0])]
+        if o is dict:
+            return Dict[str, mono(typing.get_args(t)[1])]
+        if o is tuple:
+            return Tuple[tuple(mono(a) for a in typing.get_args(t))]
+        if o is Union:
+            return Optional[mono([a for a in typing.get_args(t) if a is not type(None)][0])]
+        return t
+
+    def payload(t):
+        o = typing.get_origin(t)
+        if o in (GA, GD, GT):
+            return {"item": payload(typing.get_args(t)[0]), "n": 3}
+        if o is list:
+            return [payload(typing.get_args(t)[0])]
+        if o is dict:
+            return {"k": payload(typing.get_args(t)[1])}
+        if o is tuple:
+            return [payload(a) for a in typing.get_args(t)]
+        if o is Union:
+            return payload([a for a in typing.get_args(t) if a is not type(None)][0])
+        return {int: 5, str: "s", SK: "b"}[t]
+
+    def nrm(x):
+        if attrs.has(type(x)) or (dataclasses.is_dataclass(x) and not isinstance(x, type)):
+            return {"<inst>": {k: nrm(val) for k, val in fields_of(x).items()}}
+        if isinstance(x, dict):
+            return {k: nrm(val) for k, val in x.items()}
+        if isinstance(x, (list, tuple)):
+            return [type(x).__name__] + [nrm(e) for e in x]
+        return x
+    hist["self_nesting"] = {"comparisons": 0, "kinds": {}, "orders": {"cold": 0, "warm": 0}}
+    for G, gname in ((GA, "attrs"), (GD, "dataclass"), (GT, "TypedDict")):
+        for leaf in (int, SK):
+            nests = [("G[G[X]]", G[G[leaf]], G[leaf]), ("G[List[G[X]]]", G[List[G[leaf]]], G[leaf]), ("G[Dict[str, G[X]]]", G[Dict[str, G[leaf]]], G[leaf]),
+                     ("G[Optional[G[X]]]", G[Optional[G[leaf]]], G[leaf]), ("G[Tuple[G[X], int]]", G[Tuple[G[leaf], int]], G[leaf]),
+                     ("G[G[G[X]]]", G[G[G[leaf]]], G[G[leaf]]), ("G[G[str]] next to G[X]", G[G[str]], G[leaf])]
+            for label, GA_, inner in nests:
+                Clone = mono(GA_)
+                p = payload(GA_)
+                for dv in (True, False):
+                    for order in ("cold", "warm"):
+                        cg, cc = Converter(detailed_validation=dv), Converter(detailed_validation=dv)
+                        if order == "warm":
+                            outcome(lambda: cg.structure(payload(inner), inner))
+                            outcome(lambda: cg.unstructure(cg.structure(payload(inner), inner), unstructure_as=inner))
+                        desc = {"lane": "GEN/C17 self-nesting", "kind": gname, "type": f"{label} with X = {leaf.__name__}", "detailed_validation": dv,
+                                "converter": "fresh" if order == "cold" else "the inner parametrisation was used before", "payload": repr(p)}
+                        hist["self_nesting"]["comparisons"] += 1
+                        hist["self_nesting"]["kinds"][gname] = hist["self_nesting"]["kinds"].get(gname, 0) + 1
+                        hist["self_nesting"]["orders"][order] += 1
+                        v.count(repr(("selfnest", desc)), True)
+                        sg = outcome(lambda: cg.structure(p, GA_))
+                        sc = outcome(lambda: cc.structure(p, Clone))
+                        if (sg[0], nrm(sg[1]) if sg[0] == "ok" else sg[1]) != (sc[0], nrm(sc[1]) if sc[0] == "ok" else sc[1]):
+                            v.violation("structuring as G[args] differs from structuring as the monomorphised copy",
+                                        {**desc, "generic": repr(sg)[:300], "clone": repr(sc)[:300]})
+                            continue
+                        if sg[0] != "ok":
+                            v.violation("a valid payload of a self-nested generic class is rejected (by the generic class and by its copy)", {**desc, "outcome": repr(sg)[:300]})
+                            continue
+                        ug = outcome(lambda: cg.unstructure(sg[1], unstructure_as=GA_))
+                        uc = outcome(lambda: cc.unstructure(sc[1], unstructure_as=Clone))
+                        if ug != uc or ug != ("ok", p if gname != "x" else p):
+                            if ug == uc and _tuple_as_list(ug[1] if ug[0] == "ok" else None) == _tuple_as_list(p):
+                                continue
+                            v.violation("unstructuring as G[args] differs from unstructuring the monomorphised copy (or from the payload it was structured from)",
+                                        {**desc, "generic": repr(ug)[:300], "clone": repr(uc)[:300]})
+
+
+def _tuple_as_list(x):
+    if isinstance(x, (list, tuple)):
+        return [_tuple_as_list(e) for e in x]
+    if isinstance(x, dict):
+        return {k: _tuple_as_list(e) for k, e in x.items()}
+    return x
